@@ -252,6 +252,8 @@ def run(pid: str, tier: str, seed: int, selftest=False, replay=None) -> int:
                 # known finding (loop rotation in NESTED loops): either at most one setup per accelerator per outermost loop nest, or loops
                 # that are never nested (then any number of setups and launches per loop body)
                 kw = dict(chains=True, carried=True, one_setup_per_loop_nest=True, n_accs=2) if k % 2 else dict(chains=True, carried=True, flat_loops=True, n_accs=2)
+            if k % 3 == 0:
+                kw["early_inputs"] = True      # partially overlapped code: inputs of the next configuration computed between launch and await
             text, argdom, opq = generate(seed, k, **kw)
             sources.append((f"gen:{seed}:{k}", text, argdom, opq))
             if pid == "C07" and k % 2 == 0:
